@@ -23,9 +23,9 @@ CHECKS = {
             "(symmetric d, any permutation, incl. the x[i-1] wrap and (j+1)%n), reversal = segment reversal and permutation-preserving, "
             "every (x,y) registered by EA and FEA is (permutation, exact cyclic edge sum) for all start tours and all draw sequences, EA "
             "lengths non-increasing, every FEA table index in [0, ub] on accepted instances, kernels/solve memory-safe, int64 arithmetic "
-            "within +-2^62. Tie: stub-process replay of both real solve methods, direct kernel calls on all (i,j), bounds-checked pre-pass.",
+            "within +-2^62. Tie: stub-process replay of both real solve methods, direct kernel calls on all (i,j), bounds-checked pre-pass. The kernels `rev_if_not_worse` and `rev_if_h_not_worse` are additionally TRANSLATED from the current source on every run (loop2lean -> lean/Gen/RevIf*.lean; slice assignment with Python's slice rules, result = written arrays + value) and theorems C06Gen.rev_if_not_worse_eq_model / rev_if_h_not_worse_eq_model prove them equal to the hand models for all inputs, in-place updates of x and h included.",
             TB + "numpy RNG (scripted), moptipy Process (stub), numba compilation of slices/negative wrap.",
-            "Lean 4 proof (induction over move lists, list-segment reversal lemmas) + stub-process correspondence", "6/C06"),
+            "Lean 4 proof (induction over move lists, list-segment reversal lemmas) + stub-process correspondence", "6/C06", ["Props.C06GenEA", "Props.C06GenFEA"]),
     "C08": ("proof",
             "12 Lean theorems: kernel = tournament walk model (home, venue of each away opponent, home) + penalty per bye for all "
             "plans/matrices; no OOB on the space; lower/upper bound and strict increase on replacing any game by a bye for every "
@@ -79,10 +79,10 @@ CHECKS = {
             "zero beyond horizon, equal on ties, antitone; plus positivity/strictness inside the horizon) for every square integer distance "
             "matrix, integer flow powers 1..99 and any horizon; swap distance = n - cycles = minimum number of transpositions (upper bound "
             "constructive, lower bound by orbit merging) for all lengths; no OOB on permutations. Tie: correspondence over exhaustive small "
-            "distance tables, 8 distance functions, both rank paths, all permutation pairs up to length 5/6, BFS minimum as extra enumeration.",
+            "distance tables, 8 distance functions, both rank paths, all permutation pairs up to length 5/6, BFS minimum as extra enumeration. The kernel `swap_distance` is additionally TRANSLATED from the current source on every run (loop2lean -> lean/Gen/SwapDistance.lean; the `while` loop by fuel, fuel exhausted = none; np.argsort a parameter instantiated with the model's argsort) and C20Gen.swap_distance_eq_model proves it equal to the hand model at the model's own fuel 2n for all inputs; swap_distance_perm gives n - cycles for permutations and every fuel >= 2n.",
             TB + "scipy rankdata modelled by doubled ranks, np.argsort, float pow exact below 2^53; float flow powers and distances >= 2^63 by "
             "testing only.",
-            "Lean 4 proof (orbit/class counting for transpositions, rank monotonicity) + correspondence", "6/C20"),
+            "Lean 4 proof (orbit/class counting for transpositions, rank monotonicity) + correspondence", "6/C20", ["Props.C20Gen"]),
     "C13": ("proof",
             "(A) Lean noOOB / index-range theorems for every modelled kernel: on every input the public spaces accept, the checked-accessor "
             "model returns `some` (decoders, tour length, EA/FEA move kernels incl. frequency-table indices, plan length, game mapping, QAP "
